@@ -545,7 +545,7 @@ func structFieldsAssignable(schemas ast.Schemas, option ast.Option, allowList bo
 //   - the given argument is not a disjunction or a reference to one
 func DisjunctionAsOptionsAction(argumentIndex int) RewriteAction {
 	return func(schemas ast.Schemas, builder ast.Builder, option ast.Option) []ast.Option {
-		if len(option.Args) == 0 {
+		if argumentIndex < 0 || argumentIndex >= len(option.Args) {
 			return []ast.Option{option}
 		}
 
@@ -588,6 +588,8 @@ func disjunctionStructAsOptions(option ast.Option, disjunctionStruct ast.Type, a
 				continue
 			}
 
+			// every assignment relying on the argument has to be updated
+			envelopeArg := arg
 			assignments[i] = ast.Assignment{
 				Path: assignments[i].Path,
 				Value: ast.AssignmentValue{
@@ -596,14 +598,13 @@ func disjunctionStructAsOptions(option ast.Option, disjunctionStruct ast.Type, a
 						Values: []ast.EnvelopeFieldValue{
 							{
 								Path:  ast.PathFromStructField(field),
-								Value: ast.AssignmentValue{Argument: &arg},
+								Value: ast.AssignmentValue{Argument: &envelopeArg},
 							},
 						},
 					},
 				},
 				Method: assignments[i].Method,
 			}
-			break
 		}
 
 		opt := ast.Option{
@@ -647,12 +648,12 @@ func disjunctionAsOptions(option ast.Option, argIndex int) []ast.Option {
 				continue
 			}
 
+			// every assignment relying on the argument has to be updated
 			assignments[i] = ast.ArgumentAssignment(
 				assignments[i].Path,
 				arg,
 				ast.Method(assignments[i].Method),
 			)
-			break
 		}
 
 		opt := ast.Option{
